@@ -32,19 +32,13 @@ MODEL_CFG = {
     # quick: Arg modes 4 steps over 2 args x 3 values, K in {null,1,2,3}
     'quick': dict(ArgSteps=4, NArgs=2, NVals=3, DistinctSteps=4, NElems=3,
                   ConcatSteps=4, MaxList=1, NItems=2, PermLen=4),
-    # the 5-step behaviours (a full K=3 bag with two replacements) over a
-    # smaller domain; Arg modes only
-    'quick5': dict(ArgSteps=5, NArgs=2, NVals=2, DistinctSteps=0, NElems=1,
-                   ConcatSteps=0, MaxList=0, NItems=1, PermLen=5,
-                   Configs='ArgConfigs'),
     'thorough': dict(ArgSteps=5, NArgs=2, NVals=3, DistinctSteps=5, NElems=4,
                      ConcatSteps=5, MaxList=2, NItems=2, PermLen=5),
     'thorough3': dict(ArgSteps=4, NArgs=3, NVals=3, DistinctSteps=0, NElems=1,
                       ConcatSteps=0, MaxList=0, NItems=1, PermLen=4,
                       Configs='ArgConfigs'),
 }
-TIER_MODELS = {'quick': ['quick', 'quick5'], 'thorough': ['thorough',
-                                                           'thorough3']}
+TIER_MODELS = {'quick': ['quick'], 'thorough': ['thorough', 'thorough3']}
 
 
 def WriteCfg(name):
@@ -193,10 +187,12 @@ def _ReplayChunk(jobs):
   return [ReplayOne(j) for j in jobs]
 
 
-def Replay(behaviours, interps, workers=None):
+def Replay(behaviours, interps, workers=None, rotate=False):
+  """rotate: each behaviour under ONE interpretation, taken in turn (quick
+  tier); otherwise each behaviour under every interpretation."""
   jobs = []
-  for b in behaviours:
-    for iname in interps:
+  for n, b in enumerate(behaviours):
+    for iname in ([interps[n % len(interps)]] if rotate else interps):
       if b['m'] in ('Distinct', 'Concat') and iname in (
           'text_args_neg_values', 'int_args_real_values'):
         continue      # these only vary the arguments / shift the values
